@@ -152,9 +152,19 @@ func RunScan(p *ScanProgram) (lines []string, impl []string) {
 		p.Flushes = append(p.Flushes, ScanFlush{After: len(rows), Writes: ws})
 	}
 	resp := ""
-	if err := env.svc.Data().(interface {
-		ReadRows(*btpb.ReadRowsRequest, btpb.Bigtable_ReadRowsServer) error
-	}).ReadRows(req, st); err != nil {
+	readErr := func() (err error) {
+		defer func() {
+			if p := recover(); p != nil {
+				err = fmt.Errorf("PANIC in ReadRows (a server fault): %v", p)
+			}
+		}()
+		return env.svc.Data().(interface {
+			ReadRows(*btpb.ReadRowsRequest, btpb.Bigtable_ReadRowsServer) error
+		}).ReadRows(req, st)
+	}()
+	if readErr != nil && strings.HasPrefix(readErr.Error(), "PANIC") {
+		resp = readErr.Error()
+	} else if err := readErr; err != nil {
 		resp = errResp(err)
 	} else {
 		rows, bad := DecodeChunks(st.Msgs)
